@@ -197,6 +197,9 @@ func (c *Ctx) Level(name string) bool {
 	if c.stopped {
 		return false
 	}
+	if name == "" {
+		return false // closing call: nothing left to enumerate
+	}
 	if c.Only < 0 && time.Now().After(c.Deadline) {
 		c.stopped = true
 		return false
